@@ -52,7 +52,7 @@ func classifyCut(s *Stream, k int) cutPos {
 // is short, otherwise everything around structural marks plus a seeded sample.
 func cutOffsets(r *eng.Run, s *Stream) (offs []int, exhaustive bool) {
 	n := len(s.Wire)
-	if n <= 2048 {
+	if n <= 2048 && len(s.Frames) <= 48 {
 		offs = make([]int, n)
 		for i := range offs {
 			offs[i] = i
@@ -66,7 +66,21 @@ func cutOffsets(r *eng.Run, s *Stream) (offs []int, exhaustive bool) {
 			offs = append(offs, o)
 		}
 	}
-	for _, f := range s.Frames {
+	// (With very many frames - a gap holding a hundred and more control
+	// frames - the marks of the first and last eight frames and of a seeded
+	// sample of the others: every execution parses the whole stream.)
+	pick := func(i int) bool { return true }
+	if nf := len(s.Frames); nf > 48 {
+		chosen := map[int]bool{}
+		for i := 0; i < 24; i++ {
+			chosen[8+r.T.Int(sim.LFaultAt, nf-16)] = true
+		}
+		pick = func(i int) bool { return i < 8 || i >= nf-8 || chosen[i] }
+	}
+	for i, f := range s.Frames {
+		if !pick(i) {
+			continue
+		}
 		for o := f.Off - 1; o <= f.HdrEnd+2; o++ {
 			add(o)
 		}
